@@ -16,8 +16,8 @@ MethodTags == {"m_ok", "m_one", "m_perr", "m_exc", "m_unk"}  \* method names (m_
 StrTags    == {"s_empty", "s_a", "s_b", "s_1", "s_v20", "s_v10", "s_esc", "mw_short", "mw_rewritten"}
                 \cup MethodTags
               \* ""  "a"  "b"  "1"  "2.0"  "1.0"  escapes+control+astral
-ArrTags    == {"a_empty", "a_1", "a_deep"}             \* []  [1]  nested
-ObjTags    == {"o_empty", "o_a", "o_deep", "r_none", "r_a1", "r_deep", "r_one_a1"}
+ArrTags    == {"a_empty", "a_1", "a_deep", "a_deep64"}   \* []  [1]  nested  [1, 64 levels of nesting]
+ObjTags    == {"o_empty", "o_a", "o_deep", "r_none", "r_a1", "r_deep", "r_deep64", "r_one_a1"}
               \* {}  {"a":1}  nested; r_*: the argument records the instrumented methods return
 Values     == NullTags \cup BoolTags \cup IntTags \cup FloatTags \cup StrTags
                 \cup ArrTags \cup ObjTags
